@@ -246,7 +246,9 @@ impl<'a> Parser<'a> {
     /// Handles: [expr], [start:end], [start:end:step], [:end], [start:], [::step]
     fn index_or_slice(&mut self) -> Result<IndexOrSlice, CompileError> {
         // Check for immediate colon (slice starting with no start value)
-        if self.check(&TokenKind::Punctuation(PunctuationId::Colon)) {
+        if self.check(&TokenKind::Punctuation(PunctuationId::Colon))
+            || self.check(&TokenKind::Punctuation(PunctuationId::ColonColon))
+        {
             return self.parse_slice(None);
         }
 
@@ -262,7 +264,9 @@ impl<'a> Parser<'a> {
         let first = self.expression()?;
 
         // Check if this is a slice (has colon after first expression)
-        if self.check(&TokenKind::Punctuation(PunctuationId::Colon)) {
+        if self.check(&TokenKind::Punctuation(PunctuationId::Colon))
+            || self.check(&TokenKind::Punctuation(PunctuationId::ColonColon))
+        {
             return self.parse_slice(Some(first));
         }
 
@@ -273,6 +277,20 @@ impl<'a> Parser<'a> {
     /// Parse slice syntax after optional start expression
     /// start is already parsed, now parse [:end[:step]]
     fn parse_slice(&mut self, start: Option<Spanned<Expr>>) -> Result<IndexOrSlice, CompileError> {
+        // `::` is lexed as one token; inside a slice it is two colons with the end omitted (`s[::2]`, `s[1::-1]`).
+        if self.match_token(&TokenKind::Punctuation(PunctuationId::ColonColon)) {
+            let step = if !self.check(&TokenKind::Punctuation(PunctuationId::RBracket)) {
+                Some(Box::new(self.expression()?))
+            } else {
+                None
+            };
+            return Ok(IndexOrSlice::Slice(SliceExpr {
+                start: start.map(Box::new),
+                end: None,
+                step,
+            }));
+        }
+
         // Consume the first colon
         self.expect(&TokenKind::Punctuation(PunctuationId::Colon), "Expected ':' in slice")?;
 
